@@ -89,57 +89,54 @@ type getSite struct {
 func collectGetSites(p *core.Prog, f *core.Func, body ast.Node) []getSite {
 	info := f.Pkg.TypesInfo
 	var out []getSite
-	var walk func(n ast.Node, depth int)
-	walk = func(n ast.Node, depth int) {
-		ast.Inspect(n, func(m ast.Node) bool {
-			is, ok := m.(*ast.IfStmt)
-			if !ok || is.Init == nil {
-				return true
+	// getCall: `v, ok := ARR.Get(<const>)`
+	getCall := func(st ast.Stmt) (*ast.AssignStmt, *ast.SelectorExpr, int64, bool) {
+		as, ok := st.(*ast.AssignStmt)
+		if !ok || len(as.Rhs) != 1 || len(as.Lhs) != 2 {
+			return nil, nil, 0, false
+		}
+		c, ok := core.Unparen(as.Rhs[0]).(*ast.CallExpr)
+		if !ok || len(c.Args) != 1 {
+			return nil, nil, 0, false
+		}
+		sel, ok := core.Unparen(c.Fun).(*ast.SelectorExpr)
+		if !ok || sel.Sel.Name != "Get" || core.NamedTypeName(info.TypeOf(sel.X)) != "ipld/ipldbindcode._array" {
+			return nil, nil, 0, false
+		}
+		idx, isC := core.ConstInt(info, c.Args[0])
+		if !isC {
+			return nil, nil, 0, false
+		}
+		return as, sel, idx, true
+	}
+	returnsErr := func(n ast.Node) bool {
+		found := false
+		ast.Inspect(n, func(k ast.Node) bool {
+			if rt, ok := k.(*ast.ReturnStmt); ok && len(rt.Results) >= 1 && !core.IsNil(info, rt.Results[len(rt.Results)-1]) {
+				found = true
 			}
-			as, ok := is.Init.(*ast.AssignStmt)
-			if !ok || len(as.Rhs) != 1 || len(as.Lhs) != 2 {
-				return true
-			}
-			c, ok := core.Unparen(as.Rhs[0]).(*ast.CallExpr)
-			if !ok || len(c.Args) != 1 {
-				return true
-			}
-			sel, ok := core.Unparen(c.Fun).(*ast.SelectorExpr)
-			if !ok || sel.Sel.Name != "Get" || core.NamedTypeName(info.TypeOf(sel.X)) != "ipld/ipldbindcode._array" {
-				return true
-			}
-			idx, isC := core.ConstInt(info, c.Args[0])
-			if !isC {
-				return true
-			}
-			gs := getSite{Arr: core.ExprStr(sel.X), ArrObj: core.ObjOf(info, sel.X), Index: idx, If: is, Var: core.ObjOf(info, as.Lhs[0])}
-			gs.Top = declaredWithoutValue(f, gs.ArrObj)
-			// else branch returns an error
-			if is.Else != nil {
-				ast.Inspect(is.Else, func(k ast.Node) bool {
-					if rt, ok := k.(*ast.ReturnStmt); ok && len(rt.Results) >= 1 && !core.IsNil(info, rt.Results[len(rt.Results)-1]) {
-						gs.ElseErr = true
-					}
-					return true
-				})
-			}
-			// body: assigned fields, nil guard, decoder (not descending into nested Get sites of another array)
-			ast.Inspect(is.Body, func(k ast.Node) bool {
+			return true
+		})
+		return found
+	}
+	// analyse: assigned fields, nil guard, decoder of the statements that handle the value (not descending into nested Get
+	// sites of another array)
+	analyse := func(gs *getSite, nodes []ast.Node) {
+		for _, nd := range nodes {
+			ast.Inspect(nd, func(k ast.Node) bool {
 				switch x := k.(type) {
 				case *ast.IfStmt:
-					if x != is {
+					if x != gs.If {
 						if x.Init != nil {
-							if ia, ok := x.Init.(*ast.AssignStmt); ok && len(ia.Rhs) == 1 {
-								if ic, ok := core.Unparen(ia.Rhs[0]).(*ast.CallExpr); ok {
-									if isel, ok := core.Unparen(ic.Fun).(*ast.SelectorExpr); ok && isel.Sel.Name == "Get" {
-										return false // nested positional decode (SlotMeta, Shredding): collected separately
-									}
-								}
+							if _, _, _, isGet := getCall(x.Init); isGet {
+								return false // nested positional decode (SlotMeta, Shredding): collected separately
 							}
 						}
-						if v, eq, isNil := core.NilCompare(info, x.Cond); isNil && !eq {
-							if vo := core.ObjOf(info, v); vo != nil && (vo == gs.Var || vo.Name() == gs.Var.Name()) {
-								gs.NilGuard = true
+						for _, cj := range conjuncts(x.Cond) {
+							if v, eq, isNil := core.NilCompare(info, cj); isNil && !eq {
+								if vo := core.ObjOf(info, v); vo != nil && gs.Var != nil && (vo == gs.Var || vo.Name() == gs.Var.Name()) {
+									gs.NilGuard = true
+								}
 							}
 						}
 					}
@@ -153,16 +150,25 @@ func collectGetSites(p *core.Prog, f *core.Func, body ast.Node) []getSite {
 					}
 				case *ast.CallExpr:
 					nm := core.CalleeName(info, x)
+					resT := ""
+					if tv := info.TypeOf(x); tv != nil {
+						if tup, isTup := tv.(*types.Tuple); isTup && tup.Len() > 0 {
+							resT = core.NamedTypeName(tup.At(0).Type())
+						} else {
+							resT = core.NamedTypeName(tv)
+						}
+					}
+					inPkg := nm != "" && core.ShortPkg(pkgOfName(nm)) == "ipld/ipldbindcode" && !strings.Contains(nm, "_array")
 					switch {
 					case strings.HasSuffix(nm, ".getUint64FromInterface"):
 						gs.Decoder = "Int"
-					case strings.HasSuffix(nm, ".decodeCborLinkListFromAny"):
+					case strings.HasSuffix(nm, ".decodeCborLinkListFromAny"), inPkg && strings.HasSuffix(resT, "List__Link"):
 						gs.Decoder = "[Link]"
 					case strings.HasSuffix(nm, ".fromCBORArray"):
 						gs.Decoder = "DataFrame"
-					case strings.HasSuffix(nm, "cid.CidFromBytes"):
+					case strings.HasSuffix(nm, "cid.CidFromBytes"), inPkg && strings.HasSuffix(resT, "linking/cid.Link"):
 						gs.Decoder = "Link"
-					case gs.Decoder == "" && nm != "" && core.ShortPkg(pkgOfName(nm)) == "ipld/ipldbindcode" && !strings.Contains(nm, "_array"):
+					case gs.Decoder == "" && inPkg:
 						gs.Decoder = "call:" + nm[strings.LastIndex(nm, ".")+1:]
 					}
 				case *ast.TypeAssertExpr:
@@ -177,13 +183,94 @@ func collectGetSites(p *core.Prog, f *core.Func, body ast.Node) []getSite {
 				}
 				return true
 			})
-			out = append(out, gs)
-			// nested sites
-			walk(is.Body, depth+1)
-			return false
+		}
+	}
+	var walkList func(list []ast.Stmt)
+	var walk func(n ast.Node)
+	walk = func(n ast.Node) {
+		ast.Inspect(n, func(m ast.Node) bool {
+			switch x := m.(type) {
+			case *ast.BlockStmt:
+				walkList(x.List)
+				return false
+			case *ast.CaseClause:
+				walkList(x.Body)
+				return false
+			}
+			return true
 		})
 	}
-	walk(body, 0)
+	walkList = func(list []ast.Stmt) {
+		for i := 0; i < len(list); i++ {
+			st := list[i]
+			// form A/B: if v, ok := arr.Get(i); ok [&& v != nil] { ... } [else { return err }]
+			if is, ok := st.(*ast.IfStmt); ok && is.Init != nil {
+				if as, sel, idx, isGet := getCall(is.Init); isGet {
+					gs := getSite{Arr: core.ExprStr(sel.X), ArrObj: core.ObjOf(info, sel.X), Index: idx, If: is, Var: core.ObjOf(info, as.Lhs[0])}
+					gs.Top = declaredWithoutValue(f, gs.ArrObj)
+					if is.Else != nil && returnsErr(is.Else) {
+						gs.ElseErr = true
+					}
+					for _, cj := range conjuncts(is.Cond) {
+						if v, eq, isNil := core.NilCompare(info, cj); isNil && !eq && core.ObjOf(info, v) == gs.Var {
+							gs.NilGuard = true
+						}
+					}
+					analyse(&gs, []ast.Node{is.Body})
+					out = append(out, gs)
+					walk(is.Body)
+					continue
+				}
+			}
+			// form C: v, ok := arr.Get(i); if !ok { return err }; <the statements that handle v, up to the next Get>
+			if as, sel, idx, isGet := getCall(st); isGet && i+1 < len(list) {
+				okObj := core.ObjOf(info, as.Lhs[1])
+				if nx, isIf := list[i+1].(*ast.IfStmt); isIf && nx.Init == nil {
+					gs := getSite{Arr: core.ExprStr(sel.X), ArrObj: core.ObjOf(info, sel.X), Index: idx, If: nx, Var: core.ObjOf(info, as.Lhs[0])}
+					gs.Top = declaredWithoutValue(f, gs.ArrObj)
+					var handling []ast.Node
+					if u, isNot := core.Unparen(nx.Cond).(*ast.UnaryExpr); isNot && u.Op == token.NOT && core.ObjOf(info, u.X) == okObj && okObj != nil {
+						// absent -> the if body; present -> what follows
+						gs.ElseErr = returnsErr(nx.Body)
+						for j := i + 2; j < len(list); j++ {
+							if _, _, _, g2 := getCall(list[j]); g2 {
+								break
+							}
+							if is2, isIf2 := list[j].(*ast.IfStmt); isIf2 && is2.Init != nil {
+								if _, _, _, g3 := getCall(is2.Init); g3 {
+									break
+								}
+							}
+							handling = append(handling, list[j])
+						}
+					} else if len(conjuncts(nx.Cond)) >= 1 && core.ObjOf(info, conjuncts(nx.Cond)[0]) == okObj && okObj != nil {
+						// present -> the if body
+						if nx.Else != nil && returnsErr(nx.Else) {
+							gs.ElseErr = true
+						}
+						for _, cj := range conjuncts(nx.Cond) {
+							if v, eq, isNil := core.NilCompare(info, cj); isNil && !eq && core.ObjOf(info, v) == gs.Var {
+								gs.NilGuard = true
+							}
+						}
+						handling = []ast.Node{nx.Body}
+					} else {
+						walk(st)
+						continue
+					}
+					analyse(&gs, handling)
+					out = append(out, gs)
+					for _, h := range handling {
+						walk(h)
+					}
+					i++ // the if statement was consumed
+					continue
+				}
+			}
+			walk(st)
+		}
+	}
+	walk(body)
 	return out
 }
 
@@ -581,6 +668,43 @@ func c11FastDecoders(r *core.Report, kindConst map[string]int64) {
 				if isBin && be.Op == token.NEQ && !fc.Truth && strings.HasSuffix(core.ExprStr(be.X), ".Kind") && strings.Contains(core.ExprStr(be.Y), "Kind"+tn) {
 					ok = true
 				}
+				if isBin && be.Op == token.EQL && fc.Truth && strings.HasSuffix(core.ExprStr(be.X), ".Kind") && strings.Contains(core.ExprStr(be.Y), "Kind"+tn) {
+					ok = true
+				}
+				// the check made by a helper: if err := expectKind(node.Kind, KindT); err != nil { return }
+				if x, isNil, isCmp := core.NilCompare(info, fc.Expr); isCmp && isNil == fc.Truth && fc.Edge != nil {
+					eo := core.ObjOf(info, x)
+					if eo == nil || !core.IsErrorType(eo.Type()) {
+						continue
+					}
+					for _, dn := range stmtNodes(g) {
+						as, isAs := dn.Ast.(*ast.AssignStmt)
+						if !isAs || len(as.Rhs) != 1 || core.ObjOf(info, as.Lhs[len(as.Lhs)-1]) != eo || !g.Dominates(dn, fc.Edge) {
+							continue
+						}
+						c, isCall := core.Unparen(as.Rhs[0]).(*ast.CallExpr)
+						if !isCall || len(c.Args) != 2 {
+							continue
+						}
+						ki, ci := -1, -1
+						for ai, a := range c.Args {
+							if strings.HasSuffix(core.ExprStr(stripConvs(info, a)), ".Kind") {
+								ki = ai
+							}
+							if strings.HasSuffix(core.ExprStr(stripConvs(info, a)), "Kind"+tn) {
+								ci = ai
+							}
+						}
+						if ki < 0 || ci < 0 {
+							continue
+						}
+						for _, h := range calleesOfCall(p, f, c) {
+							if equalityHelper(p, h, ki, ci) {
+								ok = true
+							}
+						}
+					}
+				}
 			}
 		}
 		_ = info
@@ -822,4 +946,30 @@ func declaredWithoutValue(f *core.Func, o types.Object) bool {
 		return true
 	})
 	return found
+}
+
+// equalityHelper: every success return of h is reached only after its parameters #a and #b were found equal, the other
+// outcome returning an error.
+func equalityHelper(p *core.Prog, h *core.Func, a, b int) bool {
+	pa, pb := h.ParamObj(a), h.ParamObj(b)
+	if pa == nil || pb == nil || h.Body == nil {
+		return false
+	}
+	info := h.Pkg.TypesInfo
+	g := p.Graph(h)
+	all, nret := true, 0
+	for _, rn := range g.Returns() {
+		if definitelyErrorReturn(g, h, rn) {
+			continue
+		}
+		nret++
+		okR := false
+		for _, fc := range g.FactsAt(rn) {
+			if fc.Tag == nil && fc.Edge != nil && core.Mentions(info, fc.Expr, pa) && core.Mentions(info, fc.Expr, pb) && isEqualityTest(info, fc.Expr) && assertsEqual(info, fc.Expr, fc.Truth) && leadsToErrorOnly(g, h, siblingEdge(fc.Edge)) {
+				okR = true
+			}
+		}
+		all = all && okR
+	}
+	return all && nret > 0
 }
